@@ -654,8 +654,11 @@ func (k *checker) walkComp(sp *space, v *repoView, ci int, r interface{ Intn(int
 						}
 						if explained {
 							f.Key = "all:missing-commits-behind-first-already-listed-commit"
-							if len(noAtags) != len(want) {
-								f.Key += "+annotated-tag-tips-ignored"
+							for _, x := range d.Missing {
+								if !noAtags[x] { // a missing commit that only an annotated tag reaches
+									f.Key += "+annotated-tag-tips-ignored"
+									break
+								}
 							}
 						} else {
 							f.Key = "all:" + o.name + ":missing-unexplained"
